@@ -283,6 +283,15 @@ def gen_xls_negative(ctx, tmp, n):
               "sst": ["a", "bé", "c" * 40], "sheets": [{"name": "S%d" % j, "cells": cells} for j in range(rng.randrange(1, 3))],
               # record types around FILEPASS' number, FILEPASS-looking bodies under other ids
               "globals_extra": [(t, pwgen.filepass_body(rng, "rc4")) for t in rng.sample([0x002E, 0x0030, 0x012F, 0x2F00, 0x003D, 0x0040], 2)]}
+        if rng.random() < 0.6:
+            # protection that is NOT encryption: workbook-structure / window / revision protection with
+            # password verifiers, a write-reservation password (FILESHARING) and WRITEPROT — all records
+            # in clear, no FILEPASS: such a workbook opens
+            prot = [(0x0012, struct.pack("<H", 1)), (0x0013, struct.pack("<H", rng.choice([0xCE4B, 0x83AF, 1, 0xFFFF]))),
+                    (0x0019, struct.pack("<H", rng.choice([0, 1]))), (0x01AF, struct.pack("<H", 1)),
+                    (0x01BC, struct.pack("<H", rng.choice([0, 0xA1B2]))), (0x0086, b""),
+                    (0x005B, struct.pack("<HHH", 1, rng.choice([0xCE4B, 0x1234]), 0))]
+            wb["globals_extra"] = rng.sample(prot, rng.randrange(1, len(prot) + 1)) + wb["globals_extra"]
         if rng.random() < 0.5:
             wb["names"] = [("nm", xlsgen.PTG_INT_1)]
         opts = {"stream_name": rng.choice(["Workbook", "Book"]), "cfb": {"version": rng.choice([3, 4]), "shuffle": rng.random() < 0.5}}
@@ -485,6 +494,27 @@ def run_cases(ctx, cases):
     alll = ["a_%s\tpassword\tall\t%s" % (c.cid, c.path) for c in cases if c.expect is not None]
     allres = ctx.run_impl(alll)
     judge(ctx, cases, impl, model, allres)
+    # the verdict is a function of the file, not of where the reader stands when it is handed over
+    # (a caller that sniffed the signature or hashed the file first): every reader, reader at
+    # offset 0 / 8 / end of file
+    sub = [c for c in cases if c.expect is not None][:ctx.scale(400, 4000)]
+    pl = []
+    for c in sub:
+        for f in ("xlsx", "xlsb", "xls", "ods"):
+            for sk in ("", "+8", "+all"):
+                pl.append("p_%s_%s%s\topen\t%s%s\t%s\tsheets" % (c.cid, f, sk, f, sk, c.path))
+    pres = ctx.run_impl(pl)
+    for c in sub:
+        ctx.traces += 1
+        for f in ("xlsx", "xlsb", "xls", "ods"):
+            base = pres.get("p_%s_%s" % (c.cid, f))
+            for sk in ("+8", "+all"):
+                got = pres.get("p_%s_%s%s" % (c.cid, f, sk))
+                if got != base:
+                    ctx.violations.append({"case": {"line": "open %s%s %s sheets" % (f, sk, c.path), "path": c.path}, "expected": base,
+                                           "actual": got, "model": "",
+                                           "what": "the %s reader answers differently when the reader it is given does not stand at offset 0 (%s)" % (f, sk)})
+        ctx.count("reader_position_independent")
 
 def run_recs(ctx, n):
     lines = gen_recs(ctx, n)
